@@ -229,6 +229,74 @@ class Exec:
     def ev_Dict(self, e, st, k, K): return k(st, fresh('dictdisplay'))
     def ev_List(self, e, st, k, K): return k(st, fresh('listdisplay'))
     def ev_Tuple(self, e, st, k, K): return self.ev_list(e.elts, st, lambda s, vs: k(s, PyTuple(vs)), K)
+    # comprehensions  [f(x) for x in xs if c(x)]  /  {k: f(v) for k, v in d.items() if c(k, v)}  (one generator): filter and element expression are
+    # executed ONCE for an arbitrary element (fresh index / key); the result collection is described by quantified facts obtained by generalising
+    # that element.  Without a filter the description is exact (same length, element j is f(xs[j])); with a filter the dict result is exact
+    # (key set = the keys that pass) and the list result is over-approximated soundly: 0 <= len <= len(xs), len == len(xs) iff every element
+    # passes, every result element is f(some passing element) (order and multiplicity are not tracked).  Anything else (nested generators,
+    # expressions that fork, write the heap or build tuples) is outside the subset -> Unsupported (UNDECIDED), never a guess.
+    def ev_ListComp(self, e, st, k, K): return self._comprehension(e, st, k, K, False)
+    def ev_DictComp(self, e, st, k, K): return self._comprehension(e, st, k, K, True)
+    def _comprehension(self, e, st, k, K, is_dict):
+        if len(e.generators) != 1 or e.generators[0].is_async: raise Unsupported("comprehension with several generators: " + ast.unparse(e)[:80])
+        gen = e.generators[0]; it = gen.iter; txt = ast.unparse(e)[:80]
+        over_items = isinstance(it, ast.Call) and isinstance(it.func, ast.Attribute) and it.func.attr == 'items' and not it.args and not it.keywords
+        def with_src(st1, src):
+            child = st1.fork(); child.env = dict(child.env)
+            if over_items:
+                if not isinstance(src, PyDict) or not (isinstance(gen.target, ast.Tuple) and len(gen.target.elts) == 2 and all(isinstance(t, ast.Name) for t in gen.target.elts)):
+                    raise Unsupported("comprehension over " + ast.unparse(it)[:60])
+                q = fresh('ckey'); child.pc.append(child.heap.dhas[src.addr][q])
+                child.env[gen.target.elts[0].id] = q; child.env[gen.target.elts[1].id] = child.heap.dval[src.addr][q]
+            else:
+                if not isinstance(src, PyList) or not isinstance(gen.target, ast.Name): raise Unsupported("comprehension over " + ast.unparse(it)[:60])
+                q = fresh('cidx', IntSort()); child.pc += [q >= 0, q < child.heap.llen[src.addr]]
+                child.env[gen.target.id] = self.wrap_elem(src, child.heap.litem[src.addr][q]) if hasattr(self, 'wrap_elem') else child.heap.litem[src.addr][q]
+            h0 = child.heap
+            K2 = dict(K); K2['exc'] = lambda s, x: (s.__setattr__('env', dict(st1.env)), K['exc'](s, x))[1]      # some element raises: the comprehension raises
+            def pure(s, npc, nfacts):
+                hs = s.heap
+                if len(s.facts) != nfacts: raise Unsupported("comprehension element adds quantified facts: " + txt)
+                if any(not a.eq(b) for a, b in ((hs.llen, h0.llen), (hs.litem, h0.litem), (hs.dhas, h0.dhas), (hs.dval, h0.dval), (hs.cls_of, h0.cls_of))) or not (hs.next is h0.next or hs.next.eq(h0.next)) \
+                   or any(not hs.fld[f].eq(h0.field(f)) for f in hs.fld):
+                    raise Unsupported("comprehension element with side effects: " + txt)
+                return s.pc[npc:]
+            # 1. the filter, for the arbitrary element
+            cond = BoolVal(True); cur = child
+            for tst in gen.ifs:
+                outs = []; npc, nf = len(cur.pc), len(cur.facts)
+                self.ev(tst, cur, lambda s, v: outs.append((s, v)), K2)
+                if len(outs) != 1: raise Unsupported(f"comprehension filter has {len(outs)} normal paths: " + txt)
+                s, v = outs[0]
+                if pure(s, npc, nf): raise Unsupported("comprehension filter that constrains the path: " + txt)
+                c = truthy(v); cond = And(cond, c) if gen.ifs.index(tst) else c
+                cur = s.fork(); cur.env = dict(s.env); cur.pc.append(c)          # later filters and the element expression are evaluated only if this one passes
+            # 2. the element expression(s), for an arbitrary element that passes
+            outs = []; npc, nf = len(cur.pc), len(cur.facts)
+            if is_dict: self.ev(e.key, cur, lambda s, kv: self.ev(e.value, s, lambda s2, vv: outs.append((s2, kv, vv)), K2), K2)
+            else: self.ev(e.elt, cur, lambda s, vv: outs.append((s, None, vv)), K2)
+            if len(outs) != 1: raise Unsupported(f"comprehension element has {len(outs)} normal paths: " + txt)
+            s, kv, vv = outs[0]
+            if isinstance(vv, (PyTuple, PyCallable, Tok)): raise Unsupported("comprehension element value: " + txt)
+            extra = pure(s, npc, nf); out = st1.fork(); r = alloc(out); v = to_val(vv)
+            if is_dict:
+                if not (over_items and is_expr(kv) and kv.eq(q)): raise Unsupported("dict comprehension that renames keys: " + txt)
+                if gen.ifs: out.facts.append(ForAll([q], out.heap.dhas[r][q] == And(out.heap.dhas[src.addr][q], cond)))
+                else: out.pc.append(out.heap.dhas[r] == out.heap.dhas[src.addr])
+                out.facts.append(ForAll([q], Implies(And(out.heap.dhas[src.addr][q], cond), And(*extra, out.heap.dval[r][q] == v))))
+                return k(out, PyDict(r))
+            if over_items: raise Unsupported("list comprehension over dict items: " + txt)
+            n = out.heap.llen[src.addr]
+            if not gen.ifs:
+                out.pc.append(out.heap.llen[r] == n)
+                out.facts.append(ForAll([q], Implies(And(q >= 0, q < n), And(*extra, out.heap.litem[r][q] == v))))
+                return k(out, PyList(r))
+            m = out.heap.llen[r]; wq = fresh('cfail', IntSort()); j = fresh('cj', IntSort()); idx = Function(f'csrc!{next(_cnt)}', IntSort(), IntSort())
+            out.pc += [m >= 0, m <= n, Implies(m < n, And(wq >= 0, wq < n, Not(substitute(cond, (q, wq)))))]
+            out.facts.append(ForAll([q], Implies(And(q >= 0, q < n, Not(cond)), m < n)))
+            out.facts.append(ForAll([j], Implies(And(j >= 0, j < m), And(idx(j) >= 0, idx(j) < n, substitute(And(cond, *extra, out.heap.litem[r][j] == v), (q, idx(j)))))))
+            return k(out, PyList(r))
+        return self.ev(it.func.value if over_items else it, st, with_src, K)
     def ev_list(self, es, st, k, K, acc=None):
         acc = acc or []
         if not es: return k(st, acc)
